@@ -100,6 +100,18 @@ fn check(case: &Case) -> Option<String> {
             }
         }
     }
+    // the same arithmetic called directly on each half with a lookup that has NO entry for the voters without an acknowledgement
+    // ("missing voter": it counts in the size of the set, with acknowledged index 0) -- the tracker above always holds a Progress per voter
+    for set in [&case.incoming, &case.outgoing] {
+        type H = std::hash::BuildHasherDefault<fxhash::FxHasher>;
+        let vs: std::collections::HashSet<u64, H> = set.iter().cloned().collect();
+        let mut l: std::collections::HashMap<u64, raft::Progress, H> = Default::default();
+        for id in set.iter() { if let Some((m, g)) = case.acks.get(id) { let mut pr = raft::Progress::new(*m + 1, 16); pr.matched = *m; pr.commit_group_id = *g; l.insert(*id, pr); } }
+        let want_h = qidx(case, set);
+        let got_h = match std::panic::catch_unwind(std::panic::AssertUnwindSafe(|| raft::MajorityConfig::new(vs).committed_index(case.group_commit, &l).0)) { Ok(v) => v, Err(_) => return Some(format!("MajorityConfig::committed_index panicked on voters {:?} with unknown voters", set)) };
+        if !case.group_commit { if got_h != want_h { return Some(format!("MajorityConfig::committed_index = {} on voters {:?} (voters without an entry in the lookup count as 0) but the largest index acknowledged by a majority is {}", got_h, set, want_h)); } }
+        else if got_h > want_h { return Some(format!("MajorityConfig::committed_index (group commit) = {} on voters {:?} exceeds the plain quorum index {}", got_h, set, want_h)); }
+    }
     // has_quorum(S): S holds a majority of each half (S = the ids that voted yes)
     {
         let yes: std::collections::HashSet<u64> = case.votes.iter().filter(|(k, v)| **v && (case.incoming.contains(k) || case.outgoing.contains(k))).map(|(k, _)| *k).collect();
